@@ -41,9 +41,17 @@ struct TimedTaskImpl {
             DISPENSO_VERIF_POINT("TtWrStoreTimes", this);
             timesToRun.store(0, std::memory_order_release);
             DISPENSO_VERIF_POINT("TtWrSetCancelled", this);
-            flags.fetch_or(kFFlagsCancelled, std::memory_order_acq_rel);
-            DISPENSO_VERIF_POINT("TtWrClearFunc", this);
-            func = {};
+            flags.fetch_or(kFFlagsCancelled, std::memory_order_seq_cst);
+            // Release the function right away only if nothing else can be using it.  Every kick-off
+            // that may still call func, and every other queued or running wrapper (which calls f
+            // through a reference into func), is counted in inProgress, and later kick-offs see the
+            // flag set above.  Otherwise func is released by ~TimedTask() or together with this
+            // object.
+            DISPENSO_VERIF_POINT("TtWrLoadInProgress", this);
+            if (inProgress.load(std::memory_order_seq_cst) == 1) {
+              DISPENSO_VERIF_POINT("TtWrClearFunc", this);
+              func = {};
+            }
           }
           DISPENSO_VERIF_POINT("TtWrIncCount", this);
           count.fetch_add(1, std::memory_order_acq_rel);
